@@ -9,12 +9,12 @@ def part(bin, sub, q=1, t=16, tq=120, tt=1800, tiers=("quick", "thorough"), args
 PLAN = {
     "C01": {
         "level": "model_checking",
-        "parts": [part("mc_proto", "c01", q=4, t=16)],
+        "parts": [part("mc_proto", "c01", q=4, t=16), part("mc_server", "c01", q=16, t=16, tq=200, tt=2400)],
         "assumptions": ["in-memory reader/writer never fail", "test service TS is the only registered interface"],
     },
     "C02": {
         "level": "model_checking",
-        "parts": [part("mc_proto", "c02", q=16, t=16)],
+        "parts": [part("mc_proto", "c02", q=16, t=16), part("mc_server", "c02", q=16, t=16, tq=200, tt=2400)],
         "assumptions": ["caller keeps tail ++ unread remainder of its own reader between handle() calls"],
     },
     "C03": {
@@ -34,12 +34,27 @@ PLAN = {
     },
     "C06": {
         "level": "fault_enumeration",
-        "parts": [part("mc_proto", "c06", q=16, t=16, tq=300)],
+        "parts": [part("mc_proto", "c06", q=16, t=16, tq=300), part("mc_server", "c06", q=16, t=16, tq=200, tt=2400)],
         "assumptions": ["serde_json is the trusted JSON parser of both service and classifier", "messages with duplicate or unknown top-level members and top-level arrays are classified 'either'"],
     },
     "C17": {
         "level": "exploration",
         "parts": [part("en_serde", "c17", q=1, t=1)],
         "assumptions": ["Some(null) == absent for optional members (the property's own equivalence)"],
+    },
+    "C14": {
+        "level": "model_checking",
+        "parts": [part("mc_server", "c14", q=16, t=16, tq=200, tt=2400)],
+        "assumptions": ["idle workers are interchangeable (any parked worker may take the next queued message)", "jobs are long-lived connections that end when the environment says so"],
+    },
+    "C13": {
+        "level": "model_checking",
+        "parts": [part("mc_server", "c13", q=16, t=16, tq=200, tt=2400)],
+        "assumptions": ["in-memory streams stand in for sockets (accept hook); writes are not scheduling points (each connection writes only to its own buffer)"],
+    },
+    "C15": {
+        "level": "model_checking",
+        "parts": [part("mc_server", "c15", q=16, t=16, tq=200, tt=2400)],
+        "assumptions": ["virtual clock: an accept timeout advances time by exactly the requested timeout", "Listener::new binds a real socket path per execution so the unlink clause is observed on the real file system"],
     },
 }
